@@ -388,6 +388,36 @@ def correspond(ctx, scale):
                         failures.append({'key': f'{f["name"]}:{op}:repeat-exception', 'what': repr(ex), 'case': dict(name=f['name'], ops=trace)})
             if len(samples) < 4:
                 samples.append(dict(module=f['name'], ops=trace))
+    # STATELESS use (torch.func.functional_call, single-dict and (params, buffers) tuple form) of k-means modules: the initialising call writes the whole
+    # k-means result - flag included - into the CALLER's tensors, the module's own state stays as it was, and the following pure calls change nothing
+    from torch.func import functional_call as _fcall
+    from vector_quantize_pytorch import VectorQuantize as _VQ8
+    for fi in range(4 if not ctx.thorough else 12):
+        try:
+            vq8 = _VQ8(dim=3, codebook_size=4, kmeans_init=True, kmeans_iters=2, use_cosine_sim=(fi % 2 == 1), decay=0.5)
+            vq8.eval()
+            own0 = blob(vq8)
+            params8 = {k_: v_.detach().clone() for k_, v_ in vq8.named_parameters()}
+            bufs8 = {k_: v_.detach().clone() for k_, v_ in vq8.named_buffers()}
+            args8 = (params8, bufs8) if fi % 4 < 2 else {**params8, **bufs8}
+            store8 = bufs8 if fi % 4 < 2 else args8
+            with torch.no_grad():
+                _fcall(vq8, args8, (torch.randn(2, 6, 3),))
+                after_init = {k_: v_.clone() for k_, v_ in store8.items()}
+                r_a = flat_out(_fcall(vq8, args8, (torch.ones(2, 6, 3) * 0.3,)))
+                r_b = flat_out(_fcall(vq8, args8, (torch.ones(2, 6, 3) * 0.3,)))
+            evaluations += 1
+            dist['functional_call_kmeans'] = dist.get('functional_call_kmeans', 0) + 1
+            okm, whym = same(own0, blob(vq8))
+            if not okm:
+                failures.append({'key': 'vq-kmeans:functional-call:own-state-changed', 'what': f'a k-means VectorQuantize used through torch.func.functional_call changed its own state: {whym}', 'case': dict(form=fi % 4)})
+            flag8 = [v_ for k_, v_ in store8.items() if k_.endswith('initted')]
+            moved8 = [k_ for k_ in store8 if store8[k_].dtype.is_floating_point and not torch.equal(store8[k_], after_init[k_])]
+            if (flag8 and not bool(flag8[0].all())) or moved8 or not outs_equal(r_a, r_b):
+                failures.append({'key': 'vq-kmeans:functional-call:not-pure-after-init', 'what': 'a k-means VectorQuantize used statelessly: after the initialising call the caller\'s `initted` is '
+                                 f'{bool(flag8[0].all()) if flag8 else None}, later evaluation calls changed {moved8[:3]} / repeatable={outs_equal(r_a, r_b)}', 'case': dict(form=fi % 4)})
+        except Exception as ex:
+            failures.append({'key': f'vq-kmeans:functional-call:exception:{type(ex).__name__}', 'what': repr(ex), 'case': dict(form=fi % 4)})
     # all-pairs sweep over per-call options and ambient contexts (vlib/callzoo.py): whatever the options, an evaluation-mode call and a
     # frozen training-mode call leave every persistent tensor bit-identical - after a used history (two training steps, gradients left behind)
     from vlib import callzoo
